@@ -60,11 +60,13 @@ TxExpected(ev) ==
              shown |-> BytesToHex(Reverse(TxId(tx))), version |-> BytesToHex(tx.version), locktime |-> BytesToHex(tx.locktime), haswit |-> HasWitness(tx),
              vin |-> [i \in 1..Len(tx.vin) |-> [txid |-> BytesToHex(tx.vin[i].txid), n |-> BytesToHex(tx.vin[i].n), script |-> BytesToHex(tx.vin[i].script),
                                                 sequence |-> BytesToHex(tx.vin[i].sequence), wit |-> [k \in 1..Len(tx.wit[i]) |-> BytesToHex(tx.wit[i][k])]]],
-             vout |-> [i \in 1..Len(tx.vout) |-> [amount |-> BytesToHex(tx.vout[i].amount), script |-> BytesToHex(tx.vout[i].script)]]]
+             vout |-> [i \in 1..Len(tx.vout) |-> [amount |-> BytesToHex(tx.vout[i].amount), script |-> BytesToHex(tx.vout[i].script)]],
+             \* given as --tx=<amount per input>:<hex> it is the same transaction (decoding does not depend on the values it carries)
+             viaopt |-> TRUE]
 TxObserved(ev) ==
     IF ~ev.ok THEN [ok |-> "no"]
     ELSE [ok |-> "yes", reser |-> ev.reser, reser2 |-> ev.reser, txid |-> ev.txid, wtxid |-> ev.wtxid, shown |-> ev.shown, version |-> ev.version, locktime |-> ev.locktime,
-          haswit |-> ev.haswit, vin |-> ev.vin, vout |-> ev.vout]
+          haswit |-> ev.haswit, vin |-> ev.vin, vout |-> ev.vout, viaopt |-> IF "viaopt" \in DOMAIN ev THEN ev.viaopt ELSE TRUE]
 AmtExpected(ev) ==
     LET items == SplitOn(StrToCodes(ev.text), 44, <<>>)
         parsed == [i \in 1..Len(items) |-> ParseAmount(items[i])]
